@@ -12,3 +12,9 @@ ASSUME.update({
  "C12": ["real slowness is modelled as arrival order of the replicas' answers (the harness sequences gated replicas); goroutine scheduling of Go's runtime is not modelled",
          "sub-stores are content-addressed maps (C01)"],
 })
+ASSUME.update({
+ "C01": ["leaf backends (memory, files/localdisk, diskpacked, blobpacked below the packing threshold, encrypt) are modelled as maps; their internals are covered by C03/C04/C11 and by the correspondence",
+         "content addressing: the bytes stored under a ref are a function of the ref (hypothesis op_ok of the nesting theorem; enforced by C02)",
+         "shard/overlay/namespace/proxycache/cond/union combinators: executable models tied by the correspondence only (no refinement proof yet); proxycache eviction not modelled (cache contents not compared)",
+         "OS file system and third-party KV engines behave as maps (C10); stat requests contain no duplicate refs"],
+})
